@@ -33,7 +33,7 @@ type c12ServeCase struct {
 	// InAccept (with Pending): the late connection has been taken by Accept, which has not returned yet when the
 	// stop happens (otherwise Serve is held right after Accept returned)
 	InAccept bool
-	Choices []int
+	Choices  []int
 }
 
 type blockHandler struct{ started chan string }
